@@ -209,6 +209,12 @@ pub fn run_impl_all(ctx: &Ctx, rep: &mut Report, cases: &Arc<Vec<Case>>) -> Opti
 
 /// Compare implementation outcomes with the model driver's. Returns the model outcomes.
 pub fn correspond(ctx: &Ctx, rep: &mut Report, cases: &[Case], impl_out: &[Outcome]) -> Vec<Option<Outcome>> {
+    if ctx.driver == "none" {
+        if !rep.notes.iter().any(|n| n.starts_with("model driver unavailable")) {
+            rep.notes.push("model driver unavailable: correspondence skipped, oracle only".into());
+        }
+        return vec![None; cases.len()];
+    }
     let lines: Vec<String> = cases.iter().map(op_line_call).collect();
     let model_lines = match run_driver_par(&ctx.driver, &lines, ctx.threads) {
         Ok(v) => v,
